@@ -22,15 +22,37 @@ I, R = z3.IntSort(), z3.RealSort()
 
 
 class Ent:
-    __slots__ = ("conds", "val")
+    """guarded term; `sums` are pending symbolic summations (var, lo, hi) that no equality has determined yet"""
+    __slots__ = ("conds", "val", "sums")
 
-    def __init__(self, conds, val):
-        self.conds, self.val = list(conds), val
+    def __init__(self, conds, val, sums=()):
+        self.conds, self.val, self.sums = list(conds), val, tuple(sums)
+
+
+def resolve_sums(e):
+    """eliminate every pending summation variable that an equality among the conditions determines"""
+    changed = True
+    while changed and e.sums:
+        changed = False
+        for k, (var, lo, hi) in enumerate(e.sums):
+            sol = solve_for(var, e.conds)
+            if sol is not None:
+                j, s = sol
+                ELIMS[0] += 1
+                conds = [_subst(c, var, s) for q, c in enumerate(e.conds) if q != j] + [s >= iterm(lo), s < iterm(hi)]
+                rest = tuple((v, _l, _h) for q, (v, _l, _h) in enumerate(e.sums) if q != k)
+                e = Ent(conds, _subst(e.val, var, s), rest)
+                changed = True
+                break
+    return e
 
 
 def ents_expr(ents):
     """the entry as one z3 Real term"""
     t = z3.RealVal(0)
+    ents = [resolve_sums(e) for e in ents]
+    if any(e.sums for e in ents):
+        raise Unsupported("a symbolic summation is left undetermined (operand without one-hot structure)")
     for e in ents:
         c = z3.And(*e.conds) if e.conds else z3.BoolVal(True)
         t = t + z3.If(c, e.val, z3.RealVal(0))
@@ -84,11 +106,12 @@ def eliminate(var, lo, hi, ents):
             raise Unsupported("summation of a term that does not depend on the summation index")
         sol = solve_for(var, e.conds)
         if sol is None:
-            raise Unsupported("summation index is not determined by an equality (no one-hot structure)")
+            out.append(resolve_sums(Ent(e.conds, e.val, e.sums + ((var, lo, hi),))))     # stays pending
+            continue
         k, s = sol
         ELIMS[0] += 1
         conds = [_subst(c, var, s) for j, c in enumerate(e.conds) if j != k] + [s >= iterm(lo), s < iterm(hi)]
-        out.append(Ent(conds, _subst(e.val, var, s)))
+        out.append(resolve_sums(Ent(conds, _subst(e.val, var, s), e.sums)))
     return out
 
 
@@ -275,11 +298,11 @@ class IArr(IdxND):
     def __mul__(self, o):
         if isinstance(o, IArr):
             shape, fa, fb, dt = self._bcast(o)
-            return IArr(shape, lambda *idx: [Ent(a.conds + b.conds, _mulv(a.val, b.val)) for a in fa(*idx) for b in fb(*idx)], dt)
+            return IArr(shape, lambda *idx: [resolve_sums(Ent(a.conds + b.conds, _mulv(a.val, b.val), a.sums + b.sums)) for a in fa(*idx) for b in fb(*idx)], dt)
         s = SScal.lift(o)
         if not s.is_real():
             raise Unsupported("complex scalar in the index domain")
-        return IArr(self.shape, lambda *idx: [Ent(e.conds, _mulv(s.re, e.val)) for e in self.fn(*idx)], self.dtype)
+        return IArr(self.shape, lambda *idx: [Ent(e.conds, _mulv(s.re, e.val), e.sums) for e in self.fn(*idx)], self.dtype)
 
     __rmul__ = __mul__
 
@@ -321,12 +344,12 @@ class IArr(IdxND):
             if o.ndim == 2:
                 def fn(i, j):
                     v = fresh_idx("m")
-                    return eliminate(v, 0, n, [Ent(a.conds + b.conds, _mulv(a.val, b.val)) for a in self.fn(i, v) for b in o.fn(v, j)])
+                    return eliminate(v, 0, n, [Ent(a.conds + b.conds, _mulv(a.val, b.val), a.sums + b.sums) for a in self.fn(i, v) for b in o.fn(v, j)])
                 return IArr((self.shape[0], o.shape[1]), fn, np.promote_types(self.dtype, o.dtype))
 
             def fn1(i):
                 v = fresh_idx("m")
-                return eliminate(v, 0, n, [Ent(a.conds + b.conds, _mulv(a.val, b.val)) for a in self.fn(i, v) for b in o.fn(v)])
+                return eliminate(v, 0, n, [Ent(a.conds + b.conds, _mulv(a.val, b.val), a.sums + b.sums) for a in self.fn(i, v) for b in o.fn(v)])
             return IArr((self.shape[0],), fn1, np.promote_types(self.dtype, o.dtype))
         raise Unsupported("matmul operand")
 
@@ -359,8 +382,12 @@ class IndexFn(IdxND):
         q = z3.Int("q?idx")
         CTX.assume(z3.ForAll([q], z3.And(f(q) >= 0, f(q) < iterm(bound)), patterns=[f(q)]))
 
-    def cpu(self):
-        return self
+    # like a NumPy >= 2 array: has .device, no .cpu()
+    def __eq__(self, other):
+        same = other is self
+        return types.SimpleNamespace(all=lambda: same)
+
+    __hash__ = object.__hash__
 
 
 def norm_slice(sl, n):
@@ -457,6 +484,8 @@ def _update_array(array, update, *slices):
         upd = None
     else:
         upd = update
+        if is_cplx(getattr(upd, "dtype", np.float64)) and not is_cplx(array.dtype):
+            CTX.require(z3.BoolVal(False), "update_array stores complex values into a real array (numpy drops the imaginary part)")
         # shape compatibility (numpy would raise on a mismatch)
         if isinstance(upd, IArr):
             us = list(upd.shape)
@@ -469,36 +498,49 @@ def _update_array(array, update, *slices):
                         raise ValueError(f"could not broadcast input array from shape {tuple(us)} into shape {tuple(vs)}")
 
     def fn(*idx):
-        inside = []
+        inside = []          # conditions under which position idx is overwritten
+        eqs = []             # equalities linking idx to the source position (possibly through a pending summation variable)
         src = []
+        sums = []
         for p, i in zip(plans, idx):
             if p[0] == "slice":
                 _, st, ln, step = p
-                off = i - st.term
                 if step == 1:
+                    off = i - st.term
                     inside += [off >= 0, off < ln.term]
                     src.append(off)
-                elif step > 0:
-                    inside += [off >= 0, off % step == 0, off / step < ln.term]
-                    src.append(off / step)
                 else:
-                    o2 = st.term - i
-                    inside += [o2 >= 0, o2 % (-step) == 0, o2 / (-step) < ln.term]
-                    src.append(o2 / (-step))
+                    q = fresh_idx("q")
+                    sums.append((q, 0, ln))
+                    eqs.append(i == st.term + q * step)
+                    inside_q = True
+                    src.append(q)
             elif p[0] == "int":
                 inside.append(i == p[1].term)
-            else:
-                raise Unsupported("scatter through an index array needs the duplicate-free precondition (not modelled)")
-        cond_in = z3.And(*inside) if inside else z3.BoolVal(True)
-        old = [Ent(e.conds + [z3.Not(cond_in)], e.val) for e in array.fn(*idx)]
+            else:   # scatter through an index array: position f(q) receives update[q] (precondition: f injective, see C20)
+                q = fresh_idx("q")
+                sums.append((q, 0, p[1].length))
+                eqs.append(i == p[1].f(q))
+                src.append(q)
         if upd is None:
-            new = [Ent([cond_in], sv.re)] if not (z3.is_rational_value(sv.re) and sv.re.numerator_as_long() == 0) else []
+            usrc = []
+            new_terms = [Ent([], sv.re)] if not (z3.is_rational_value(sv.re) and sv.re.numerator_as_long() == 0) else []
         else:
             usrc = src
             if upd.ndim < len(usrc):
                 usrc = usrc[len(usrc) - upd.ndim:]
-            usrc = [z3.IntVal(0) if SInt.lift(s).concrete() == 1 else t for t, s in zip(usrc, upd.shape)]
-            new = [Ent(e.conds + [cond_in], e.val) for e in upd.fn(*usrc)]
+            usrc = [z3.IntVal(0) if SInt.lift(s_).concrete() == 1 else t for t, s_ in zip(usrc, upd.shape)]
+            new_terms = upd.fn(*usrc)
+        new = [resolve_sums(Ent(e.conds + inside + eqs, e.val, e.sums + tuple(sums))) for e in new_terms]
+        # the old value survives where no source position maps to idx
+        if sums:
+            hit = z3.BoolVal(False)
+            for (q, lo, hi), eq in zip(sums, eqs):
+                hit = z3.Exists([q], z3.And(q >= iterm(lo), q < iterm(hi), eq, *inside))
+            keep = z3.Not(hit)
+        else:
+            keep = z3.Not(z3.And(*inside)) if inside else z3.BoolVal(False)
+        old = [Ent(e.conds + [keep], e.val, e.sums) for e in array.fn(*idx)]
         return old + new
     return IArr(array.shape, fn, array.dtype, fresh=True)
 
@@ -523,7 +565,7 @@ def _concat(xs, axis=0):
         for x, lo, hi in zip(xs, offs[:-1], offs[1:]):
             sub = list(idx)
             sub[ax] = idx[ax] - lo.term
-            out += [Ent(e.conds + [idx[ax] >= lo.term, idx[ax] < hi.term], e.val) for e in x.fn(*sub)]
+            out += [Ent(e.conds + [idx[ax] >= lo.term, idx[ax] < hi.term], e.val, e.sums) for e in x.fn(*sub)]
         return out
     return IArr(tuple(shape), fn, xs[0].dtype)
 
@@ -554,7 +596,17 @@ def _roll(a, shift, axis):
 
 def _stack(xs):
     xs = list(xs)
-    raise Unsupported("stack")
+    if all(isinstance(x, IArr) and x.ndim == 0 for x in xs):
+        def fn(p):
+            out = []
+            for q, x in enumerate(xs):
+                out += [Ent(e.conds + [p == q], e.val, e.sums) for e in x.fn()]
+            return out
+        return IArr((len(xs),), fn, xs[0].dtype)
+    raise Unsupported("stack of non-scalar arrays")
+
+
+ifns.stack = _stack
 
 
 ifns.zeros, ifns.eye, ifns.ones, ifns.update_array, ifns.concat, ifns.canonical, ifns.roll = _zeros, _eye, _ones, _update_array, _concat, _canonical, _roll
@@ -603,6 +655,33 @@ class IRange:
         raise Unsupported(f"arange[{key!r}]")
 
 
+class SRange:
+    """range(...) over symbolic bounds, with CPython's slicing semantics: range(n)[sl] is again a range"""
+    def __init__(self, start, length, step):
+        self.start, self.length, self.step = SInt.lift(start), SInt.lift(length), step
+        self.stop = self.start + self.length * step
+
+    def __getitem__(self, key):
+        if isinstance(key, slice):
+            st, ln, stp = norm_slice(key, self.length)
+            return SRange(self.start + st * self.step, ln, self.step * stp)
+        raise Unsupported("range[...] with a non-slice key")
+
+    def __len__(self):
+        c = self.length.concrete()
+        if c is None:
+            raise Unsupported("len() of a symbolic range")
+        return c
+
+
+def vc_range(*args):
+    if any(isinstance(a, SInt) for a in args):
+        if len(args) == 1:
+            return SRange(0, args[0], 1)
+        raise Unsupported("range(a, b[, s]) with symbolic bounds outside a loop cut")
+    return range(*args)
+
+
 class IdxOp:
     """mixin giving an abstract operator an entry function a(r, j) in the index domain"""
 
@@ -620,14 +699,14 @@ def make_abstract_op(label, rows, cols, dtype=np.float64):
         if X.ndim == 2:
             def fn(r, c):
                 v = fresh_idx("j")
-                return eliminate(v, 0, cols, [Ent(e.conds, _mulv(a(r, v), e.val)) for e in X.fn(v, c)])
+                return eliminate(v, 0, cols, [Ent(e.conds, _mulv(a(r, v), e.val), e.sums) for e in X.fn(v, c)])
             return IArr((rows, X.shape[1]), fn, np.promote_types(dtype, X.dtype))
         raise Unsupported("abstract operator applied to a vector")
 
     def rmatmat(X):
         def fn(c, r):
             v = fresh_idx("j")
-            return eliminate(v, 0, rows, [Ent(e.conds, _mulv(e.val, a(v, r))) for e in X.fn(c, v)])
+            return eliminate(v, 0, rows, [Ent(e.conds, _mulv(e.val, a(v, r)), e.sums) for e in X.fn(c, v)])
         return IArr((X.shape[0], cols), fn, np.promote_types(dtype, X.dtype))
     op = LinearOperator(np.dtype(dtype), (rows, cols), matmat=matmat)
     op.__dict__["_rmatmat"] = rmatmat
